@@ -203,6 +203,19 @@ fn fpair_dense(d: &mut Draw, n: usize) -> (Vec<f64>, Vec<f64>, &'static str) {
 /// the statements are scale-free: now and then the whole configuration is scaled by 1e-30..1e30
 /// (products of four components, as in |u x v|^2, must stay inside the f64 range)
 fn rescale(d: &mut Draw, u: &mut Vec<f64>, v: &mut Vec<f64>) -> f64 {
+    if d.chance(1, 6) {
+        // |u| = 1 up to a relative 1e-12 .. 1e-3 (a vector that is "already normalised" only nearly), and now and then |v| too
+        let nu = fnorm(u);
+        let k = (1.0 + d.f64_slog(1e-12, 1e-3)) / nu;
+        for x in u.iter_mut() {
+            *x *= k;
+        }
+        let kv = if d.bool() { (1.0 + d.f64_slog(1e-12, 1e-3)) / fnorm(v) } else { k };
+        for x in v.iter_mut() {
+            *x *= kv;
+        }
+        return 1.0;
+    }
     if d.chance(1, 3) {
         let k = d.f64_log(1e-30, 1e30);
         for x in u.iter_mut() {
@@ -246,6 +259,23 @@ fn lengths_f64<V: InnerSpace<Scalar = f64> + Comp<f64>>(d: &mut Draw) -> Outcome
     for i in 0..V::N {
         let want = u[i] * m / fnorm(&u);
         ensure!((nt_[i] - want).abs() <= 8.0 * e * want.abs(), "normalize_to", "{}::normalize_to component {}: {} vs {}", V::NAME, i, nt_[i], want);
+    }
+    // projection: parallel to v, remainder orthogonal to v - with the two operands at independent scales (every
+    // quantity the statement names, |u|, |v|, u.v, |v|^2 and the projection itself, stays far inside the float range)
+    {
+        let (ku, kv) = if d.chance(1, 2) { (d.f64_log(1e-100, 1e100), d.f64_log(1e-100, 1e100)) } else { (1.0, 1.0) };
+        let us: Vec<f64> = u.iter().map(|x| x * ku).collect();
+        let vs: Vec<f64> = v.iter().map(|x| x * kv).collect();
+        let (nu_, nv_) = (fnorm(&us), fnorm(&vs));
+        if nv_ > 0.0 && nv_.is_finite() && nu_.is_finite() && (nv_ * nv_).is_finite() && nv_ * nv_ > 1e-300 {
+            let vn: Vec<f64> = vs.iter().map(|x| x / nv_).collect();
+            let c = dotn(&us, &vn);
+            let got = V::from_s(&us).project_on(V::from_s(&vs)).comps();
+            for i in 0..V::N {
+                let want = vn[i] * c;
+                ensure!((got[i] - want).abs() <= 16.0 * e * nu_ + 1e-300, "project_on-f64", "{}::project_on component {}: {:e}, reference {:e} (|u| = {:e}, |v| = {:e})", V::NAME, i, got[i], want, nu_, nv_);
+            }
+        }
     }
     pass(cls, true)
 }
@@ -312,8 +342,8 @@ pub fn property() -> Property {
             add!(concat!("inner-", $tag, "-Q"), "Q", inner_field::<Q, $T<Q>>, 2000, 150_000, 32, &[("generic", 100)], RG);
             add!(concat!("inner-", $tag, "-Fp"), "Fp", inner_field::<Fp, $T<Fp>>, 2000, 150_000, 32, &[("generic", 100)], RG);
             add!(concat!("lengths-", $tag, "-Q"), "Q", lengths_q::<$T<Q>>, 2000, 150_000, 48, &[], "vector of rational length with no zero component, m and scale != 1");
-            add!(concat!("lengths-", $tag, "-f64"), "f64", lengths_f64::<$T<f64>>, 3000, 200_000, 48, PAIRS, "every generated pair");
-            add!(concat!("angle-", $tag, "-f64"), "f64", angle_f64::<$T<f64>>, 4000, 300_000, 48, PAIRS, "every generated pair; (anti)parallel and nearly (anti)parallel pairs required");
+            add!(concat!("lengths-", $tag, "-f64"), "f64", lengths_f64::<$T<f64>>, 3000, 200_000, 72, PAIRS, "every generated pair");
+            add!(concat!("angle-", $tag, "-f64"), "f64", angle_f64::<$T<f64>>, 4000, 300_000, 72, PAIRS, "every generated pair; (anti)parallel and nearly (anti)parallel pairs required");
         };
     }
     inner!(Vector1, "Vector1");
@@ -326,7 +356,7 @@ pub fn property() -> Property {
             add!(concat!("metric-", $tag, "-Q"), "Q", metric_field::<Q, $T<Q>>, 2000, 100_000, 24, &[("generic", 100)], "p - q has no zero component");
             add!(concat!("metric-", $tag, "-Fp"), "Fp", metric_field::<Fp, $T<Fp>>, 2000, 100_000, 24, &[("generic", 100)], "p - q has no zero component");
             add!(concat!("distance-", $tag, "-Q"), "Q", point_lengths_q::<$T<Q>>, 2000, 100_000, 32, &[], "p has no zero component");
-            add!(concat!("distance-", $tag, "-f64"), "f64", point_distance_f64::<$T<f64>>, 3000, 200_000, 48, PAIRS, "every generated pair of points");
+            add!(concat!("distance-", $tag, "-f64"), "f64", point_distance_f64::<$T<f64>>, 3000, 200_000, 72, PAIRS, "every generated pair of points");
         };
     }
     metric!(Point1, "Point1");
